@@ -52,6 +52,23 @@ Proof.
     + exists wt. apply nth_error_In with (rank r). exact En.
 Qed.
 
+(* the scripted choose_random only consumes draws *)
+Lemma choose_exec_rest : forall n w c ds tr, (length ds <= n)%nat ->
+  (length (snd (choose_exec w c ds tr)) <= length ds)%nat.
+Proof.
+  induction n as [|n IH]; intros w c ds tr Hlen.
+  - destruct ds; [|cbn in Hlen; lia]. destruct c; cbn; lia.
+  - destruct c as [|c0 c]; [destruct ds; cbn [choose_exec snd]; lia|].
+    destruct ds as [|r ds1]; [cbn; lia|].
+    cbn [choose_exec].
+    destruct (nth_error (c0 :: c) (rank r)) as [[x wt]|]; [|cbn [snd length]; lia].
+    destruct w; [|cbn [snd length]; lia].
+    destruct ds1 as [|a ds2]; [cbn [snd length]; lia|].
+    destruct (Qltb 0 wt); [cbn [snd length]; lia|].
+    cbn [length] in Hlen. specialize (IH true (c0 :: c) ds2 (CAcc wt :: CPick (map fst (c0 :: c)) :: tr)).
+    cbn [length]. assert (H : (length ds2 <= n)%nat) by lia. specialize (IH H). lia.
+Qed.
+
 Section CP.
 Variable g : graph.
 Variable rate : smap -> node -> Q.
@@ -727,6 +744,38 @@ Proof.
       exfalso. apply (cands_nonempty s Hi Hpos). exact Hnil.
 Qed.
 
+(* fuel: every event consumes draws, so a script no longer than the fuel cannot
+   exhaust it (the loop itself is unbounded for recurrent models: fuel bounds the
+   number of events of the executable model, never its behaviour) *)
+Theorem cloop_fuel : influence_covers -> forall st0 fuel t s ds tr,
+  cgood s -> (length ds <= fuel)%nat ->
+  fst (exec (cloop st0 fuel t s) ds tr) <> Err OutOfFuel.
+Proof.
+  intros Hc st0. induction fuel as [|f IH]; intros t s ds tr Hg Hlen;
+    pose proof (cg_inv s Hg) as Hi; rewrite cloop_unfold;
+    (assert (Hfin : forall ds0 tr0, fst (exec (cfinish st0 s) ds0 tr0) <> Err OutOfFuel);
+     [intros ds0 tr0; destruct (cfinish_cases st0 s) as [[out [E _]]|[_ [e [E [He|He]]]]]; rewrite E; cbn [exec fst]; subst; discriminate|]);
+    (destruct (Qltb 0 (ld_total_weight key (cnbr s))); [|apply Hfin]);
+    cbn [exec];
+    (destruct (Qeqb (ld_total_weight key (cnbr s)) 0); [cbn [fst]; discriminate|]);
+    (destruct ds as [|d ds]; [cbn [fst]; discriminate|]);
+    (destruct (Qltb d 0); [cbn [fst]; discriminate|]);
+    unfold loop_body; (destruct (xlt (t + d) tmax); [|apply Hfin]).
+  - cbn [length] in Hlen. lia.
+  - unfold Complex.event. rewrite jump_eq. cbn [bind exec].
+    pose proof (choose_exec_cases (length ds) true (kl_cands (cnbr s)) ds (CExpo (ld_total_weight key (cnbr s)) :: tr) (le_n _)) as Hch.
+    pose proof (choose_exec_rest (length ds) true (kl_cands (cnbr s)) ds (CExpo (ld_total_weight key (cnbr s)) :: tr) (le_n _)) as Hrest.
+    destruct (choose_exec true (kl_cands (cnbr s)) ds (CExpo (ld_total_weight key (cnbr s)) :: tr)) as [[[x|e] tr1] ds1].
+    + destruct Hch as [wt Hin]. destruct (cands_positive s x wt Hi Hin) as [u [Ex' [Hu _]]]. subst x.
+      unfold jump_k, keynode, knode. cbn [bind fst].
+      destruct (apply_event_inv Hc (t + d) u s Hi Hu) as [s1 [He [Hi1 [Hst [Hrows _]]]]].
+      rewrite He. cbn [liftc]. apply IH.
+      * constructor; [exact Hi1|]. rewrite Hrows, Hst. cbn [hd_counts]. rewrite (cg_rows s Hg).
+        apply bump_counts. exact Hu.
+      * cbn [snd length] in *. lia.
+    + cbn [fst]. destruct Hch as [E|[E _]]; subst e; discriminate.
+Qed.
+
 (* ---------- the whole program ---------- *)
 Theorem complex_exec : influence_covers -> forall (ic : node -> option N) fuel ds tr,
   (forall u, In u (gnodes g) -> ic u <> None) ->
@@ -752,6 +801,18 @@ Proof.
   assert (Hall : forallb (fun u => match ic u with Some _ => true | None => false end) (gnodes g) = false).
   { apply not_true_is_false. intro H. rewrite forallb_forall in H. specialize (H u Hu). rewrite Hn in H. discriminate. }
   rewrite Hall. reflexivity.
+Qed.
+
+Theorem complex_fuel : influence_covers -> forall (ic : node -> option N) fuel ds tr,
+  (length ds <= fuel)%nat ->
+  fst (exec (complex g rate choice infl rstats tmin tmax full ic fuel) ds tr) <> Err OutOfFuel.
+Proof.
+  intros Hc ic fuel ds tr Hlen. unfold complex.
+  destruct (forallb _ (gnodes g)); [|cbn [exec fst]; discriminate].
+  set (st0 := fun u => match ic u with Some s => s | None => 0%N end).
+  destruct (init_good st0) as [lc [He [Hg _]]].
+  change (Complex.fill g rate st0) with (fill st0). rewrite He. cbn [liftc].
+  apply (cloop_fuel Hc st0 fuel tmin (init_state st0 lc) ds tr Hg Hlen).
 Qed.
 
 End CP.
